@@ -27,7 +27,7 @@ def transcript(ol, full=True):
     out = []
     for o in ol:
         if full:
-            out.append([o["err"], o["store"], sorted(json.dumps([t[0], t[1]]) for t in o.get("tasks", [])), o.get("dump"), o.get("frozen")])
+            out.append([o["err"], o["store"], sorted(json.dumps([t[0], t[1]]) for t in o.get("tasks", [])), o.get("dump"), o.get("frozen"), o.get("queries")])
         else:
             out.append([o["err"]])
     return out
